@@ -1012,6 +1012,93 @@ fn observers_part(run: &mut Run, n: usize) {
     }
 }
 
+/// What one input leaves behind must not reach the next one: every ordered pair of a catalogue of
+/// inputs - valid ones and ones that take an error path, sharing numbers, names and keys - is parsed on
+/// a thread of its own, and the second result is compared with that input's result on a fresh thread.
+const PAIR_INPUTS: &[&str] = &[
+    ">> servings: 2|4|2\n@a{1}", ">> servings: 4\n@a{1}", "---\nservings: [6, 8, 6]\n---\n@a{1}", "---\nservings: 6\n---\n@a{1}", ">> servings: 2|4\n@a{1}", ">> serves: 4|4", ">> yield: 8|6",
+    ">> time: x", ">> time: 5", ">> prep time: 1h\n>> time: 2h", "---\ntime: {prep: 10, cook: x}\n---", "---\ntime: {prep: 10, cook: 5}\n---",
+    ">> tags: a, a, b", ">> tags: a", "---\ntags: [a, [b]]\n---", "---\n: [\n---\nx", "---\na: 1\n---\nx", "---\na: 1\na: 2\n---\nx",
+    "@a{1/0}", "@a{1/2}", "@a{} @&b{}", "@b{} @&b{}", "@a|b|c{}", "@a|b{}", "@&(9)x{}", "@x{}\n\n@&(~1)x{}", "~{5%kg}", "~{5%min}", "~{x%min}",
+    ">> [mode]: bogus\n@a{}", ">> [mode]: steps\n@a{}\n\n@a{}", ">> [duplicate]: ref\n@a{1%kg} @a{2%g}", "@a{1%kg} @&a{2%l}", "@a{1%kg} @&a{2%g}", "@@x{}", "@@xy{}", "#p{1%kg}", "#p{1}",
+    "@-?-?salt{}", "@salt{}", "Add 5 g and 3 kg", "Add 5 x and 3 y",
+];
+
+fn pair_image(p: &CooklangParser, src: &str) -> String {
+    guard(|| {
+        let mut s = full_image(p, src);
+        s.push_str(&full_image_with_options(p, src));
+        s
+    })
+    .unwrap_or_else(|e| format!("panic:{e}"))
+}
+
+fn check_pair(c: &(u8, u8)) -> Verdict {
+    let (a, b) = (PAIR_INPUTS[c.0 as usize % PAIR_INPUTS.len()], PAIR_INPUTS[c.1 as usize % PAIR_INPUTS.len()]);
+    let p = parser(EXT_ALL, 1);
+    let (reference, after) = std::thread::scope(|s| {
+        let fresh = s.spawn(|| pair_image(p, b)).join().unwrap();
+        let after = s
+            .spawn(|| {
+                let _ = pair_image(p, a);
+                pair_image(p, b)
+            })
+            .join()
+            .unwrap();
+        (fresh, after)
+    });
+    vensure!(
+        reference == after,
+        "c18.depends-on-history",
+        "the result for {b:?} on a thread that parsed {a:?} just before differs from its result on a fresh thread\n {}",
+        first_diff(&reference, &after)
+    );
+    Ok(())
+}
+
+fn pairs_part(run: &mut Run) {
+    let n = PAIR_INPUTS.len();
+    let p = parser(EXT_ALL, 1);
+    // every input once on a thread of its own
+    let reference: Vec<String> = PAIR_INPUTS.iter().map(|src| std::thread::scope(|s| s.spawn(|| pair_image(p, src)).join().unwrap())).collect();
+    let mut st = Stats::default();
+    let mut fail = None;
+    'outer: for i in 0..n {
+        // one thread per first input: it parses the first input, then every second input, each followed by the first again
+        let imgs: Vec<String> = std::thread::scope(|s| {
+            s.spawn(|| {
+                let mut out = vec![];
+                for j in 0..n {
+                    let _ = pair_image(p, PAIR_INPUTS[i]);
+                    out.push(pair_image(p, PAIR_INPUTS[j]));
+                }
+                out
+            })
+            .join()
+            .unwrap()
+        });
+        for (j, img) in imgs.iter().enumerate() {
+            st.eval();
+            st.nontrivial(&(i, j));
+            if *img != reference[j] {
+                fail = Some((
+                    Violation::new(
+                        "c18.depends-on-history",
+                        format!("the result for {:?} on a thread that parsed {:?} just before differs from its result on a fresh thread\n {}", PAIR_INPUTS[j], PAIR_INPUTS[i], first_diff(&reference[j], img)),
+                    ),
+                    json!([i, j]),
+                ));
+                break 'outer;
+            }
+        }
+    }
+    st.sample(|| json!(PAIR_INPUTS[0]));
+    run.add_part("pairs", &format!("all {} ordered pairs of a catalogue of {n} inputs (valid ones and ones that take an error path: duplicate servings, bad durations, YAML errors, dangling references, zero denominators, bad modes, non-time timer units ..., sharing numbers, names and keys): a thread parses the first, then the second (plain and with options, full and metadata-only); the second image must equal that input's image on a thread that parsed nothing else; every pair is non-trivial", n * n), st, true);
+    if let Some((v, case)) = fail {
+        run.fail("pairs", v, case);
+    }
+}
+
 fn processes_part(run: &mut Run, n: usize) {
     let mut st = Stats::default();
     let exe = std::env::current_exe().expect("current exe");
@@ -1052,6 +1139,7 @@ pub fn run(tier: Tier) -> i32 {
         "histories" => check_history(&case_from(j)?, &mut Stats::default()),
         "sibling-converters" => check_siblings(&case_from(j)?, &mut Stats::default()),
         "observers" => check_observed(&case_from(j)?, None),
+        "pairs" => check_pair(&case_from(j)?),
         "buffer-reuse" => check_buffer_reuse(&case_from(j)?, &mut Stats::default()),
         _ => {
             let c: InputCase = case_from(j)?;
@@ -1128,6 +1216,9 @@ pub fn run(tier: Tier) -> i32 {
         fresh_race_part(&mut run, tier.pick(300, 6000) as usize, 8);
     }
     if !run.failed() {
+        pairs_part(&mut run);
+    }
+    if !run.failed() {
         observers_part(&mut run, tier.pick(600, 20000) as usize);
     }
     if !run.failed() {
@@ -1165,6 +1256,7 @@ pub fn replay(part: &str, j: &serde_json::Value) -> Verdict {
         "processes" => Err(Violation::new("c18.process-result-differs", "re-run ./check C18 quick with the recorded VERIF_SEED")),
         "sibling-converters" => check_siblings(&case_from(j)?, &mut Stats::default()),
         "observers" => check_observed(&case_from(j)?, None),
+        "pairs" => check_pair(&case_from(j)?),
         "buffer-reuse" => check_buffer_reuse(&case_from(j)?, &mut Stats::default()),
         "ffi-histories" => {
             let src = j.get("source").and_then(|s| s.as_str()).unwrap_or("").to_string();
